@@ -110,6 +110,7 @@ class Recorder:
         self.notes = {}
 
     def put(self, kind, sitekey, data):
+        data["fid"] = sitekey[1]
         self.facts[(kind,) + sitekey] = data
 
     def note(self, kind, msg):
@@ -197,6 +198,7 @@ class Interp:
         self.models_mod = models
         self.js_full = self.uni.full(self.layout.jobstate)
         self.sym_info = {}
+        self.errvar_cache = {}
         State.interp = self
 
     # ---- frames ----------------------------------------------------------------------
@@ -225,11 +227,11 @@ class Interp:
             constraint = root[3] if len(root) > 3 else None
             if st is None:
                 st = self.cfg.default_states or self.js_full
+            if lazy and state is not None and state.written and st[2] != self.js_full[2]:
+                st = fin(self.layout.jobstate, st[2] | state.written)
             if constraint is not None and state is not None:
                 allowed = constraint[2] | state.written
                 st = fin(self.layout.jobstate, st[2] & allowed)
-            elif lazy and state is not None and state.written and st[2] != self.js_full[2]:
-                st = fin(self.layout.jobstate, st[2] | state.written)
             fields = []
             for i, f in enumerate(L.ni_fields):
                 if i == L.state_field:
@@ -710,8 +712,11 @@ class Interp:
                 dest_ty = body.locals[p["l"]] if not p["p"] else (p["p"][-1].get("ty") if p["p"][-1]["k"] == "field" else None)
                 av = self.eval_rvalue(state, frame, st["r"], dest_ty)
                 av = self.typed(av, dest_ty)
-                if av[0] == "cmp":
-                    av = BOOL_TOP
+                r = st["r"]
+                if r["k"] == "agg" and r["kind"].get("adt") == self.layout.error_ty:
+                    self.rec.put("error_construct", self.sitekey(frame, bi, si, 1),
+                                 dict(fn=body.name, bb=bi, span=st["span"], variant=r["kind"]["vname"], stack=frame.stack,
+                                      cells=self.cells(state), ghosts=self.models_mod.ghosts(self, state)))
                 self.write_place(state, frame, p, av, bi, si, st["span"])
             elif st["k"] == "setdiscr":
                 self.rec.note("imprecise", "SetDiscriminant in %s" % body.name)
@@ -1034,8 +1039,58 @@ class Interp:
                 if cur[0] != "coll":
                     self.store_root(st, a[1], av_set(cur, a[2], TOP, self.uni) if a[2] else TOP)
         self.rec.put("opaque_call", self.sitekey(frame, bi, -2),
-                     dict(fn=frame.body.name, bb=bi, span=span, callee=name, why=why, stack=frame.stack))
-        return [(TOP, st)]
+                     dict(fn=frame.body.name, bb=bi, span=span, callee=name, why=why, stack=frame.stack,
+                          cells=self.cells(state)))
+        rv = TOP
+        cb = self.facts.body(name)
+        if cb is not None:
+            rty = cb.locals[0]["s"]
+            if rty.startswith("std::result::Result<") and rty.endswith(", %s>" % self.layout.error_ty):
+                ev = self.error_variants(name)
+                ea = self.facts.adts[self.layout.error_ty]
+                vs = {}
+                for vi, v in enumerate(ea["variants"]):
+                    if v["name"] in ev:
+                        vs[vi] = tuple(TOP for _ in v["fields"])
+                res = {0: (TOP,)}
+                if vs:
+                    res[1] = (adt(self.layout.error_ty, vs),)
+                rv = adt("std::result::Result", res)
+            else:
+                rv = self.typed(TOP, cb.locals[0])
+        return [(rv, st)]
+
+    def error_variants(self, name, seen=None):
+        """names of the error variants constructed in `name` or (transitively) its local callees"""
+        if name in self.errvar_cache:
+            return self.errvar_cache[name]
+        top = seen is None
+        seen = seen if seen is not None else set()
+        if name in seen:
+            return set()
+        seen.add(name)
+        out = set()
+        b = self.facts.body(name)
+        if b is None:
+            return out
+        for blk in b.blocks:
+            if blk["cleanup"]:
+                continue
+            for st in blk["stmts"]:
+                if st["k"] == "assign" and st["r"]["k"] == "agg" and st["r"]["kind"].get("adt") == self.layout.error_ty:
+                    out.add(st["r"]["kind"]["vname"])
+                if st["k"] == "assign" and st["r"]["k"] == "agg" and "closure" in st["r"]["kind"]:
+                    out |= self.error_variants(st["r"]["kind"]["closure"], seen)
+            t = blk["term"]["t"]
+            if t["k"] == "call":
+                c = M.callee_of(t)
+                if c is not None:
+                    nm = c[1] or c[0]
+                    if self.facts.body(nm) is not None:
+                        out |= self.error_variants(nm, seen)
+        if top:
+            self.errvar_cache[name] = out
+        return out
 
     # ---- entry points -----------------------------------------------------------------------
     def param_av(self, body, i, state):
